@@ -182,7 +182,11 @@ def ctor_unit(kind):
     def body(V):
         I, st = V.I, V.st
         src = source(V, kind)
-        V.witness(lambda ev: {"op": "copy-ctor", "kind": kind, "signature": f"copy-ctor/{kind}"})
+        # the source's atoms may also sit in another (non-copying) container, which re-pointed their parent references
+        shared = V.choose([False, True], "source-atoms-also-in-another-container")
+        if shared:
+            V.keep = M.share_atoms(V, src)
+        V.witness(lambda ev: {"op": "copy-ctor", "kind": kind, "shared": shared, "signature": f"copy-ctor/{kind}" + ("/shared-atoms" if shared else "")})
         V.cover()
         cls = V.cls(M.CLS[kind])
         I.target = f"{M.CLS[kind]}.__init__"
@@ -335,22 +339,41 @@ def _concat(V):
     I, st = V.I, V.st
     # the classmethod is inherited: Molecule.concatenate / Molecule(...) | ... go through Molecule.__init__
     kind = V.choose(["Structure", "Molecule"], "class")
-    a = source(V, kind, "a")
+    # the operands: two structures; a single part (concatenate(*[x])); or a Conformer (a view of an ensemble row) on the left of `|`
+    parts = V.choose(["two", "one", "conformer-left"], "operands")
     b = source(V, kind, "b")
-    via = V.choose(["concatenate", "or"], "route")
-    fa, fb = footprint(a), footprint(b)
-    V.witness(lambda ev: {"op": "concatenate", "via": via, "signature": "concatenate"})
+    if parts == "conformer-left":
+        ens = M.mk_ens(V, 2, 3, bonds=((0, 1), (1, 2)), name="ea")
+        a = I.getitem(ens, 0)
+        via = "or"
+        fa = None
+    else:
+        a = source(V, kind, "a")
+        via = V.choose(["concatenate", "or"], "route") if parts == "two" else "concatenate"
+        fa = footprint(a)
+    fb = footprint(b)
+    V.witness(lambda ev: {"op": "concatenate", "via": via, "parts": parts, "signature": f"concatenate/{parts}"})
     V.cover()
     cls = V.cls(M.CLS[kind])
     try:
         if via == "concatenate":
             I.target = f"{M.CLS['Structure']}.concatenate"
-            res = I.call(I.getattr_(cls, "concatenate"), [a, b], {})
+            res = I.call(I.getattr_(cls, "concatenate"), [a, b] if parts == "two" else [b], {})
         else:
             I.target = f"{M.CLS['Structure']}.__or__"
             res = I.binop(__import__("ast").BitOr(), a, b)
     except PyExc:
         V.ensure("derive/returns", z3.BoolVal(False))
+        return
+    if parts == "one":
+        V.ensure("derive/returns", z3.BoolVal(True))
+        V.ensure("derive/all-atoms-and-bonds-of-both", z3.BoolVal(len(res.fields["_atoms"].items) == 3 and len(res.fields["_bonds"].items) == 2))
+        independent(V, [b], res, "derive")
+        return
+    if parts == "conformer-left":
+        V.ensure("derive/returns", z3.BoolVal(True))
+        V.ensure("derive/all-atoms-and-bonds-of-both", z3.BoolVal(len(res.fields["_atoms"].items) == 6 and len(res.fields["_bonds"].items) == 4))
+        independent(V, [b, ens], res, "derive")
         return
     V.ensure("derive/returns", z3.BoolVal(True))
     ra = res.fields["_atoms"].items
